@@ -34,7 +34,7 @@ var genFiles = []genFile{
 	{Name: "Glob"},
 	{Name: "Selector"},
 	{Name: "SelectorParse"},
-	{Name: "Secretbox"},
+	{Name: "Secretbox", Prelude: secretboxPrelude},
 	{Name: "ParseTime", Imports: []string{"Facts"}},
 	{Name: "ChainTypes", Structs: true},
 	{Name: "ChainTime", Imports: []string{"ChainTypes"}, Prelude: "variable (now : Int)\n"},
@@ -63,6 +63,10 @@ var targets = []target{
 	{Dir: "pkg/policy/selector", Name: "resolveSliceIndices", Lean: "resolveSliceIndices", File: "Selector"},
 	{Dir: "pkg/policy/selector", Name: "tokenize", Lean: "tokenize", File: "SelectorParse", Fuel: []string{"str.length + 1"}},
 	{Dir: "pkg/meta/internal/crypto", Name: "validateKey", Lean: "validateKey", File: "Secretbox", Nilable: []string{"key"}},
+	{Dir: "pkg/meta/internal/crypto", Name: "EncryptWithKey", Lean: "EncryptWithKey", File: "Secretbox", Nilable: []string{"key"},
+		Uses: []string{"ext_randRead", "ext_seal"}},
+	{Dir: "pkg/meta/internal/crypto", Name: "DecryptStringWithKey", Lean: "DecryptStringWithKey", File: "Secretbox", Nilable: []string{"key"},
+		Uses: []string{"ext_open"}},
 	{Dir: "token/internal/parse", Name: "OptionalTimestamp", Lean: "OptionalTimestamp", File: "ParseTime"},
 	{Dir: "token/delegation", Recv: "Token", Name: "IsValidAt", Lean: "Dlg_IsValidAt", File: "ChainTime"},
 	{Dir: "token/invocation", Recv: "Token", Name: "IsValidAt", Lean: "Inv_IsValidAt", File: "ChainTime"},
@@ -202,6 +206,9 @@ type libCall struct {
 
 // libCalls: standard-library functions with their model. `lower` (strings.ToLower) stays a parameter.
 var libCalls = map[string]libCall{
+	// secretbox.Seal(out, message, &nonce, &key) appends the box to out; Open(nil, box, &nonce, &key) returns (message, ok)
+	"secretbox.Seal":    {"($1 ++ (ext_seal $4 $3 $2))", ty{"Bytes", "[]byte"}, []string{"ext_seal"}},
+	"secretbox.Open":    {"(ext_open $4 $3 $2)", ty{"(Bytes × Bool)", "pair"}, []string{"ext_open"}},
 	"time.Unix":         {"$1", ty{"Int", "time.Time"}, nil},              // time.Unix(sec, 0): the instant, in seconds (the unit of every bound)
 	"time.Now":          {"now", ty{"Int", "time.Time"}, []string{"now"}}, // the instant of the check is a parameter
 	"strings.HasPrefix": {"(List.isPrefixOf $2 $1)", boolTy, nil},
@@ -249,6 +256,9 @@ var useTypes = map[string]string{
 	"ext_loadProofs":       "InvTok D C A → L → GoM (List (DlgTok D S))",
 	"ext_toIPLD":           "A → GoM N",
 	"ext_executionAllowed": "InvTok D C A → L → A → GoM Unit",
+	"ext_randRead":         "Nat → GoM Bytes",
+	"ext_seal":             "Bytes → Bytes → Bytes → Bytes",
+	"ext_open":             "Bytes → Bytes → Bytes → (Bytes × Bool)",
 	"ext_ReadOnly":         "A → GoM R",
 	"ext_GetDelegation":    "L → C → GoM (DlgTok D S)",
 	"ext_Covers":           "Bytes → Bytes → GoM Bool",
@@ -261,6 +271,7 @@ var useTypes = map[string]string{
 // pairTypes: component types of the pair types externs return
 var pairTypes = map[string][2]ty{
 	"(Int × (Option S))":  {intTy, ty{"(Option S)", "policy.Statement"}},
+	"(Bytes × Bool)":      {ty{"Bytes", "[]byte"}, boolTy},
 	"(Bool × (Option S))": {boolTy, ty{"(Option S)", "policy.Statement"}},
 }
 
@@ -273,6 +284,10 @@ const chainArgsPrelude = `variable {N : Type} (ext_matchStatement : Option S →
 const chainShellPrelude = `variable {L : Type} (ext_loadProofs : InvTok D C A → L → GoM (List (DlgTok D S)))
   (ext_verifyProofs : InvTok D C A → List (DlgTok D S) → GoM Unit) (ext_verifyTimeBound : InvTok D C A → List (DlgTok D S) → GoM Unit)
   (ext_verifyArgs : InvTok D C A → List (DlgTok D S) → A → GoM Unit)
+`
+
+const secretboxPrelude = `variable (ext_randRead : Nat → GoM Bytes) (ext_seal : Bytes → Bytes → Bytes → Bytes)
+  (ext_open : Bytes → Bytes → Bytes → (Bytes × Bool))
 `
 
 const chainEntryPrelude = `variable {L R : Type} (ext_executionAllowed : InvTok D C A → L → A → GoM Unit) (ext_ReadOnly : A → GoM R)
